@@ -1074,6 +1074,43 @@ static plan::Plan genC17d(uint64_t seed, const std::string& tier) {
   return p;
 }
 
+// ---- c12n: two conditional definitions of one name in two circuits, in both file orders, looked up without circuit ----
+static plan::Plan genC12n(uint64_t seed, const std::string& tier) {
+  (void)tier;
+  Rng r(seed);
+  plan::Plan p;
+  addCommonCfg(&p, r, seed, "c12n", false);
+  p.add("cfg minms=12000 maxms=120000");
+  uint8_t sb = static_cast<uint8_t>(0x09 + r.below(3));
+  char buf[200];
+  snprintf(buf, sizeof(buf), "r,ref,seen,,,08,b5%02x,0d00,v,,UCH", sb); p.add("csv l=" + hx(buf));
+  p.add("csv l=" + hx(r.chance(0.5) ? "*[c],ref,seen" : "*[c],ref,seen,,,,>=0"));
+  snprintf(buf, sizeof(buf), "slave zz=0x08 pb=0xb5 sb=0x%02x id=0d00 len=1 gen=small", sb); p.add(buf);
+  static const char* circuits[][2] = {{"hca", "hcb"}, {"a", "b"}, {"boiler", "heat"}, {"hc1", "hc2"}};
+  const char* const* cc = circuits[r.below(4)];
+  static const char* names[] = {"flowtemp", "rettemp"};
+  bool swap = r.chance(0.5);
+  for (int n = 0; n < 2; n++) {
+    // the first name: smaller circuit first; the second name: larger circuit first (or the other way round)
+    bool smallFirst = (n == 0) != swap;
+    std::string la, lb;
+    snprintf(buf, sizeof(buf), "[c]r,%s,%s,,,08,b5%02x,0d%02x00,v,,UCH", cc[0], names[n], sb, 0x10 + n); la = buf;
+    snprintf(buf, sizeof(buf), "[c]r,%s,%s,,,15,b5%02x,0d%02x00,v,,UCH", cc[1], names[n], sb, 0x20 + n); lb = buf;
+    p.add("csv l=" + hx(smallFirst ? la : lb));
+    p.add("csv l=" + hx(smallFirst ? lb : la));
+    snprintf(buf, sizeof(buf), "slave zz=0x08 pb=0xb5 sb=0x%02x id=0d%02x00 len=1 gen=small", sb, 0x10 + n); p.add(buf);
+    snprintf(buf, sizeof(buf), "slave zz=0x15 pb=0xb5 sb=0x%02x id=0d%02x00 len=1 gen=small", sb, 0x20 + n); p.add(buf);
+    snprintf(buf, sizeof(buf), "lookup name=%s a=0d%02x00 b=0d%02x00", names[n], 0x10 + n, 0x20 + n); p.add(buf);
+  }
+  // (the main loop resolves conditions with its first task run, 6 s after the start)
+  p.add("client id=0 at=" + std::to_string(8000 + r.below(500)));
+  addCmd(&p, r, 0, "read -f -c ref seen", "tag=none");
+  int k = 2 + static_cast<int>(r.below(3));
+  for (int i = 0; i < k; i++) for (int n = 0; n < 2; n++) addCmd(&p, r, 0, std::string("read -f ") + names[(n + i) % 2], std::string("tag=namelookup name=") + names[(n + i) % 2]);
+  for (int i = 0; i < 40; i++) p.add("react ack1=A resp1=G");
+  return p;
+}
+
 // ---- c18m: MQTT topics built from a seeded template arrive with /get, /set, /list ----
 static plan::Plan genC18m(uint64_t seed, const std::string& tier) {
   Rng r(seed);
@@ -1375,6 +1412,7 @@ struct Reg {
     hz::registerFamily(hz::Family{"c16", "l3", genC16, "access levels: interleaved TCP/HTTP sessions, ACL with overlapping level names"});
     hz::registerFamily(hz::Family{"c16v", "l3", genC16v, "access levels: conditional variants of one circuit/name with different levels; cached listings, HTTP /data, listen mode"});
     hz::registerFamily(hz::Family{"c17d", "l3", genC17d, "polling through the whole daemon while clients keep asking for the poll priority a message already has"});
+    hz::registerFamily(hz::Family{"c12n", "l3", genC12n, "two conditional definitions of one name in two circuits in both file orders, looked up by name without circuit"});
     hz::registerFamily(hz::Family{"c20s", "l3", genC20s, "enhanced adapter, foreign traffic, bus thread stalled around the arbitration of client requests"});
     hz::registerFamily(hz::Family{"c20", "l3", genC20, "garbage on TCP, HTTP and bus, then valid probes"});
   }
